@@ -78,6 +78,7 @@ pub struct NodeInner {
     /// values handed to fastrand::u64 calls, in order; when empty, `jitter_default`
     pub jitter_queue: VecDeque<u64>,
     pub jitter_seed: Option<u64>,
+    pub jitter_time_seed: Option<u64>,
     pub jitter_default: u64,
     pub jitter_draws: Vec<u64>,
     pub yield_enabled: bool,
@@ -133,6 +134,7 @@ impl Node {
                 signals: 0,
                 jitter_queue: VecDeque::new(),
                 jitter_seed: None,
+                jitter_time_seed: None,
                 jitter_default: 0,
                 jitter_draws: vec![],
                 yield_enabled: false,
@@ -250,6 +252,7 @@ impl Env for Node {
         let span = hi_excl.saturating_sub(lo).max(1);
         let v = match g.jitter_queue.pop_front() {
             Some(v) => v,
+            None if g.jitter_time_seed.is_some() => crate::rng::mix(g.jitter_time_seed.unwrap(), g.now) % span,
             None => match g.jitter_seed {
                 Some(s) => {
                     let n = g.jitter_draws.len() as u64;
